@@ -1,5 +1,5 @@
 /-
-  C01 proofs, layer 5b: `T2Data.read (T2Data.write d)` for whole objects (in-file mesh, TOUGH2 flavour, no
+  C01 proofs, layer 5b: `T2Data.read (T2Data.write d)` for whole objects (in-file mesh, both flavours, no
   extra-precision companion file), from the keyword-loop composition `whole_loop`.
 -/
 import PyTough.Proofs.T2WholeChain
@@ -9,18 +9,56 @@ open Gen.Sections (Rec)
 
 def canonTitle (d : T2Data) : Str := rstripNewline (slice (nl (strip d.title)) 0 80)
 
-theorem write_infile (d : T2Data) (hsim : d.simulator = []) (hxp : d.extraPrecision = [])
-    (cfg : WriteCfg) (hcfg : cfg.mesh = .infile) (d' : T2Data) (f : Files) (hw : d.write cfg = .ok (d', f)) :
+/-- the flavours / `write()` arguments covered: a TOUGH2 object (no `simulator`; `write()` then ignores the
+    extra-precision arguments), or an AUTOUGH2 object written with `extra_precision=None, echo_extra_precision=None` -/
+def FlavourOK (d : T2Data) (cfg : WriteCfg) : Prop := d.simulator = [] ∨ (cfg.xp = none ∧ cfg.echo = none)
+
+/-- `write_extra_precision` does nothing for an object without extra-precision sections and no arguments -/
+theorem writeExtraPrecision_off (d : T2Data) (hx : d.extraPrecision = []) :
+    writeExtraPrecision d none none = .ok (d, none) := by
+  unfold writeExtraPrecision
+  simp only [hx, List.isEmpty_nil, if_true, pure, Except.pure]
+
+/-- what `write()` does before the section loop, for the covered flavours: only `update_sections` -/
+theorem write_prefix (d : T2Data) (hxp : d.extraPrecision = []) (cfg : WriteCfg) (hfl : FlavourOK d cfg) :
+    (if d.updateSections.autough2 then writeExtraPrecision d.updateSections cfg.xp cfg.echo
+      else pure (d.updateSections, none)) = .ok (d.updateSections, none) := by
+  have hx : d.updateSections.extraPrecision = [] := hxp
+  by_cases hs : d.simulator = []
+  · have ha : d.updateSections.autough2 = false := by simp [T2Data.autough2, T2Data.updateSections, hs]
+    rw [ha]; rfl
+  · rcases hfl with h | ⟨h1, h2⟩
+    · exact absurd h hs
+    · have ha : d.updateSections.autough2 = true := by
+        cases hd : d.simulator with
+        | nil => exact absurd hd hs
+        | cons a b => simp [T2Data.autough2, T2Data.updateSections, hd]
+      rw [ha, h1, h2, if_pos rfl]
+      exact writeExtraPrecision_off _ hx
+
+theorem write_infile (d : T2Data) (hxp : d.extraPrecision = [])
+    (cfg : WriteCfg) (hfl : FlavourOK d cfg) (hcfg : cfg.mesh = .infile) (d' : T2Data) (f : Files) (hw : d.write cfg = .ok (d', f)) :
     d' = d.updateSections ∧ ∃ texts, d'.sections.mapM (writeSection mainTabs d') = .ok texts ∧
       f = { main := [nl (strip d.title)] ++ texts.flatten ++ [nl d.endKeyword], mesh := none, pdat := none } := by
-  have ha : d.updateSections.autough2 = false := by
-    simp [T2Data.autough2, T2Data.updateSections, hsim]
   have hx : d.updateSections.extraPrecision = [] := hxp
   unfold T2Data.write at hw
   have h1 : (MeshKind.infile == MeshKind.ascii) = false := by decide
   have h2 : (MeshKind.infile == MeshKind.infile) = true := by decide
-  simp only [hcfg, ha, h1, h2, Bool.false_eq_true, if_false, if_true, pure, bind, Except.pure, Except.bind, hx,
-    List.contains_nil, Bool.not_false, Bool.true_and, Bool.true_or] at hw
+  have hp := write_prefix d hxp cfg hfl
+  have hw' : Except.bind (List.mapM (fun kw => writeSection mainTabs d.updateSections kw) d.updateSections.sections)
+      (fun v => (.ok (d.updateSections, { main := [nl (strip d.updateSections.title)] ++ v.flatten ++ [nl d.updateSections.endKeyword],
+                                           mesh := none, pdat := none }) : Except Exc (T2Data × Files))) = .ok (d', f) := by
+    cases ha : d.updateSections.autough2 with
+    | false =>
+      simpa only [hcfg, ha, h1, h2, Bool.false_eq_true, if_false, if_true, pure, bind, Except.pure, Except.bind, hx,
+        List.contains_nil, Bool.not_false, Bool.true_and, Bool.true_or] using hw
+    | true =>
+      rw [ha, if_pos rfl] at hp
+      simpa only [hcfg, ha, hp, h1, h2, Bool.false_eq_true, if_false, if_true, pure, bind, Except.pure, Except.bind, hx,
+        List.contains_nil, Bool.not_false, Bool.true_and, Bool.true_or] using hw
+  clear hw
+  have hw := hw'
+  unfold Except.bind at hw
   cases hm : List.mapM (fun kw => writeSection mainTabs d.updateSections kw) d.updateSections.sections with
   | error e => rw [hm] at hw; cases hw
   | ok v =>
@@ -43,7 +81,7 @@ theorem texts_length (d : T2Data) (step : Str → T2Data → T2Data) (Good : Str
     intro d0 texts hKs hxp hgood hw
     obtain ⟨t, ts, hwt, hwts, rfl⟩ := mapM_cons_ok _ _ _ _ hw
     have hrt := hstep kw d0 (hKs kw (by simp)) hxp hgood.1
-    obtain ⟨body, hwb, _⟩ := hrt.writes
+    obtain ⟨hdr, body, hwb, _, _⟩ := hrt.writes
     rw [hwt] at hwb
     cases hwb
     have := ih { step kw d0 with sections := (step kw d0).sections ++ [kw] } ts (fun k hk => hKs k (List.mem_cons_of_mem _ hk)) hrt.xp hgood.2 hwts
@@ -53,13 +91,13 @@ theorem texts_length (d : T2Data) (step : Str → T2Data → T2Data) (Good : Str
 /-- **whole objects**: `read (write d)` through the title line, the keyword loop and the end keyword -/
 theorem whole_read_write (d : T2Data) (step : Str → T2Data → T2Data) (Good : Str → T2Data → Prop) (K : Str → Prop)
     (hK : ∀ kw, K kw → kw ∈ allSections)
-    (hsim : d.simulator = []) (hxp : d.extraPrecision = []) (hend : IsEnd d.endKeyword)
-    (cfg : WriteCfg) (hcfg : cfg.mesh = .infile) (d' : T2Data) (f : Files) (hw : d.write cfg = .ok (d', f))
+    (hxp : d.extraPrecision = []) (hend : IsEnd d.endKeyword)
+    (cfg : WriteCfg) (hfl : FlavourOK d cfg) (hcfg : cfg.mesh = .infile) (d' : T2Data) (f : Files) (hw : d.write cfg = .ok (d', f))
     (hstep : ∀ kw d0, K kw → XpFree d0 → Good kw d0 → StepRT d' kw d0 (step kw d0))
     (hKs : ∀ kw ∈ d'.sections, K kw)
     (hgood : GoodFrom step Good d'.sections (startObj d)) :
     T2Data.read .default f = .ok { canonFrom step d'.sections (startObj d) with endKeyword := d.endKeyword } := by
-  obtain ⟨hd', texts, hm, rfl⟩ := write_infile d hsim hxp cfg hcfg d' f hw
+  obtain ⟨hd', texts, hm, rfl⟩ := write_infile d hxp cfg hfl hcfg d' f hw
   have hlen := texts_length d' step Good K hstep d'.sections (startObj d) texts hKs rfl hgood hm
   have hloop := whole_loop d' step Good K hK hstep d.endKeyword hend d'.sections
     (startObj d) none (texts.flatten ++ [nl d.endKeyword])
